@@ -690,4 +690,173 @@ theorem only_zero (entry : Nat → Bytes) (box : Bytes) (tr : List (Nat × Ev)) 
   have := untouched_run entry tr _ y h j (fun x hx hxj => hj (by rw [← hxj, honly x hx]))
   simpa using this
 
+
+/-! ### exit codes and the meaning of exit 0 (per process, no hypothesis on the other processes) -/
+
+/-- per-process invariant of the acceptor: failures inside `mailfile()` die with 111; `synced` (set only by an accepted
+successful fsync, which requires the complete entry to have been written) holds exactly at the committed control points -/
+def PInv (entry : Bytes) (s : St) : Prop :=
+  (∀ c, s.pc = .dying c → c = 111) ∧
+  (∀ c, s.pc = .done c → s.opened = true → c = 0 ∨ c = 111) ∧
+  (s.pc = .start → s.opened = false) ∧
+  (s.synced = true ↔ Committed s.pc = true) ∧
+  (s.synced = true → s.written = entry)
+
+theorem pinv_init (entry : Bytes) : PInv entry {} := by simp [PInv, Committed]
+
+theorem failFrom_pinv (entry : Bytes) (s : St) (h : PInv entry s) (hpc : s.pc = .copy) : PInv entry (failFrom s) := by
+  obtain ⟨_, _, _, h4, h5⟩ := h
+  have hs : s.synced = false := by
+    cases hsy : s.synced with
+    | false => rfl
+    | true => have := h4.1 hsy; simp [hpc, Committed] at this
+  unfold failFrom; split <;> simp [PInv, Committed, hs]
+
+theorem pinv_step (entry : Bytes) (s s' : St) (e : Ev) (h : PInv entry s) (hacc : accept entry s e = some s') : PInv entry s' := by
+  obtain ⟨h1, h2, h3, h4, h5⟩ := h
+  have nosync : ∀ {pc : PC}, s.pc = pc → Committed pc = false → s.synced = false := by
+    intro pc hp hc
+    cases hsy : s.synced with
+    | false => rfl
+    | true => have := h4.1 hsy; rw [hp, hc] at this; cases this
+  cases e with
+  | openAppend ok =>
+    simp only [accept] at hacc; split at hacc
+    · rename_i hp; cases hacc
+      have hs := nosync hp (by simp [Committed])
+      cases ok <;> simp [PInv, Committed, hs]
+    · cases hacc
+  | alarm n =>
+    simp only [accept] at hacc; split at hacc
+    · rename_i hp; cases hacc
+      have hs := nosync hp.1 (by simp [Committed])
+      simp [PInv, Committed, hs]
+    · split at hacc
+      · rename_i hp; cases hacc
+        have hs := nosync hp.1 (by simp [Committed])
+        simp [PInv, Committed, hs]
+      · cases hacc
+  | flock ok =>
+    simp only [accept] at hacc; split at hacc
+    · rename_i hp; cases hacc
+      have hs := nosync hp (by simp [Committed])
+      simp [PInv, Committed, hs]
+    · cases hacc
+  | seekEnd len =>
+    simp only [accept] at hacc; split at hacc
+    · rename_i hp; cases hacc
+      have hs := nosync hp (by simp [Committed])
+      simp [PInv, Committed, hs]
+    · cases hacc
+  | seekCur len =>
+    simp only [accept] at hacc; split at hacc
+    · rename_i hp; cases hacc
+      have hs := nosync hp.1 (by simp [Committed])
+      simp [PInv, Committed, hs]
+    · cases hacc
+  | read n =>
+    simp only [accept] at hacc; split at hacc
+    · rename_i hp; cases hacc
+      have hs := nosync hp.1 (by simp [Committed])
+      simp [PInv, Committed, hs, hp.1]
+    · cases hacc
+  | readErr intr =>
+    simp only [accept] at hacc; split at hacc
+    · rename_i hp
+      cases intr with
+      | true => simp at hacc; subst hacc; exact ⟨h1, h2, h3, h4, h5⟩
+      | false => simp at hacc; subst hacc; exact failFrom_pinv entry s ⟨h1, h2, h3, h4, h5⟩ hp.1
+    · cases hacc
+  | write bs =>
+    simp only [accept] at hacc; split at hacc
+    · rename_i hp; cases hacc
+      have hs := nosync hp.1 (by simp [Committed])
+      simp [PInv, Committed, hs, hp.1]
+    · cases hacc
+  | writeErr intr =>
+    simp only [accept] at hacc; split at hacc
+    · rename_i hp
+      cases intr with
+      | true => simp at hacc; subst hacc; exact ⟨h1, h2, h3, h4, h5⟩
+      | false => simp at hacc; subst hacc; exact failFrom_pinv entry s ⟨h1, h2, h3, h4, h5⟩ hp
+    · cases hacc
+  | fsync ok =>
+    simp only [accept] at hacc; split at hacc
+    · rename_i hp
+      cases ok with
+      | true => simp at hacc; subst hacc; simp [PInv, Committed, hp.2.2]
+      | false => simp at hacc; subst hacc; exact failFrom_pinv entry s ⟨h1, h2, h3, h4, h5⟩ hp.1
+    · cases hacc
+  | ftrunc len ok =>
+    simp only [accept] at hacc; split at hacc
+    · rename_i hp; cases hacc
+      have hs := nosync hp.1 (by simp [Committed])
+      simp [PInv, Committed, hs]
+    · cases hacc
+  | close =>
+    simp only [accept] at hacc; split at hacc
+    · rename_i hp; cases hacc
+      have hs : s.synced = true := h4.2 (by simp [hp, Committed])
+      simp [PInv, Committed, hs]; exact h5 hs
+    · split at hacc
+      · rename_i hp; cases hacc
+        have hs := nosync hp (by simp [Committed])
+        simp [PInv, Committed, hs]
+      · cases hacc
+  | sigAlarm =>
+    simp only [accept] at hacc; split at hacc
+    · rename_i hp; cases hacc
+      have hs : s.synced = false := by
+        rcases hp with hp | hp
+        · exact nosync hp (by simp [Committed])
+        · exact nosync hp (by simp [Committed])
+      simp [PInv, Committed, hs]
+    · cases hacc
+  | exit code =>
+    simp only [accept] at hacc; split at hacc
+    · rename_i hp
+      split at hacc
+      · rename_i hc; cases hacc
+        have hs := nosync hp (by simp [Committed])
+        have ho := h3 hp
+        cases code with
+        | zero => exact absurd rfl hc
+        | succ k => simp [PInv, Committed, hs, ho]
+      · cases hacc
+    · rename_i hp
+      split at hacc
+      · rename_i hc; cases hacc; subst hc
+        have hs : s.synced = true := h4.2 (by simp [hp, Committed])
+        simp [PInv, Committed, hs]; exact h5 hs
+      · cases hacc
+    · rename_i c hp
+      split at hacc
+      · rename_i hc; cases hacc; subst hc
+        have hc111 := h1 code hp
+        subst hc111
+        have hs := nosync hp (by simp [Committed])
+        simp [PInv, Committed, hs]
+      · cases hacc
+    · cases hacc
+
+theorem pinv_run (entry : Nat → Bytes) (tr : List (Nat × Ev)) : ∀ (y y' : Sys), (∀ j, PInv (entry j) (y.st j)) →
+    sysRun entry y tr = some y' → ∀ j, PInv (entry j) (y'.st j) := by
+  induction tr with
+  | nil => intro y y' hinv h; simp [sysRun] at h; subst h; exact hinv
+  | cons x xs ih =>
+    intro y y' hinv h
+    obtain ⟨i, e⟩ := x
+    simp only [sysRun] at h
+    cases hs : sysStep entry y i e with
+    | none => simp [hs] at h
+    | some y1 =>
+      simp only [hs] at h
+      obtain ⟨s', hacc, hst, _⟩ := sysStep_shape entry y y1 i e hs
+      apply ih y1 y' _ h
+      intro j
+      rw [hst]
+      by_cases hji : j = i
+      · subst hji; rw [upd_same]; exact pinv_step (entry j) (y.st j) s' e (hinv j) hacc
+      · rw [upd_other _ _ _ _ hji]; exact hinv j
+
 end Nq.Lemmas.LD.Mb
